@@ -294,6 +294,62 @@ func c16Run(c *core.Ctx) {
 	if c.Shard == 0 {
 		rec(nil)
 	}
+	// alignment family: lists whose k-th unit's identifier, length octet or contents end exactly at (and up to three
+	// octets around) 4096 and 8192 octets (thorough: 512 .. 65 536) of the serialised list, with two more units behind —
+	// the sizes a buffered reader works in; and uniform lists of many small units running across the same marks
+	{
+		targets := []int{4096, 8192}
+		if thorough {
+			targets = []int{512, 1024, 2048, 4096, 8192, 16384, 32768, 65536}
+		}
+		u := 500
+		for _, T := range targets {
+			for sh := -3; sh <= 3; sh++ {
+				for _, at := range []int{0, 2, 3} { // the mark falls behind the contents, behind the identifier, behind the length octet of the next unit
+					u++
+					if !c.Mine(u) {
+						continue
+					}
+					end := T + sh - at // where the aligned unit's contents end (the first octet of the list is the configuration protocol octet)
+					var us []c16Unit
+					pos := 1
+					for end-pos > 3+255+3 {
+						us = append(us, c16Unit{ID: 0x000D, Len: 255, Pat: len(us) % 2})
+						pos += 3 + 255
+					}
+					if rest := end - pos; rest >= 3+3 && rest > 3+255 {
+						us = append(us, c16Unit{ID: 0x0003, Len: rest - 3 - 3 - 1})
+						pos += rest - 3 - 1
+					}
+					l := end - pos - 3
+					if l < 0 || l > 255 {
+						continue
+					}
+					us = append(us, c16Unit{ID: 0x8021, Len: l}, c16Unit{ID: 0x0010, Len: 2, Pat: 1}, c16Unit{ID: 0x0005, Len: 0})
+					in := c16List{Units: us}
+					if c.Begin("pco-list", "ProtocolConfigurationOptions", in) {
+						c16ListExec(c, in)
+						n++
+					}
+				}
+			}
+			for _, l := range []int{0, 1, 5} {
+				u++
+				if !c.Mine(u) {
+					continue
+				}
+				var us []c16Unit
+				for k := 0; k*(3+l) < T+64; k++ {
+					us = append(us, c16Unit{ID: uint16(k), Len: l})
+				}
+				in := c16List{Units: us}
+				if c.Begin("pco-list", "ProtocolConfigurationOptions", in) {
+					c16ListExec(c, in)
+					n++
+				}
+			}
+		}
+	}
 	for i, u := range units {
 		if c.Mine(i + 1) {
 			rec([]c16Unit{u})
